@@ -80,6 +80,24 @@ def _(c):
     c.ensure("planes", len(list(wk.iter_raan())) == p)
 
 
+def _grid_walker_counts(tier, rng):
+    """satellites per plane 1..400 x planes in {1, 2, 6} (Star and Delta alternately): only the counts and the first / last anomaly of a plane"""
+    for s_ in range(1, 401):
+        for p in (1, 2, 6):
+            yield {"kind": (s_ + p) % 2, "p": p, "s": s_}
+
+
+@contract("C19", "walker.counts", funcs=[f"{CON}:WalkerStar.iter_fleet", f"{CON}:WalkerStar.iter_nu"], grid=_grid_walker_counts, level="finite", rtol=1e-12, atol=1e-12)
+def _(c):
+    """finite: a constellation of t = p*s satellites yields exactly t pairs and s anomalies per plane, the last one being nu(plane, s-1) -- every s up to 400"""
+    kind = c.choice("kind", ["star", "delta"])
+    p, s_ = c.integer("p"), c.integer("s")
+    wk = _walker(c, kind, p * s_, p, 1 % p, 0.3)
+    c.ensure("count", sum(1 for _ in wk.iter_fleet()) == p * s_)
+    nus = list(wk.iter_nu(p - 1))
+    c.ensure("per_plane", len(nus) == s_ and c.eq(nus[-1], wk.nu(p - 1, s_ - 1)) and c.eq(nus[0], wk.nu(p - 1, 0)))
+
+
 # ------------------------------------------------------------------------------------------
 # LTAN <-> RAAN
 # ------------------------------------------------------------------------------------------
